@@ -26,6 +26,7 @@ icontract = common.assert_repo_import()
 import icontract._recompute as _rc  # noqa: E402
 
 ARGS = ["x", "y", "xs", "s", "o", "d", "n"]
+UNREPRESENTABLE_TYPES = ()
 
 
 class Obj:
@@ -42,10 +43,14 @@ class Obj:
         return "Obj(a=%r, b=%r)" % (self.a, self.b)
 
 
-def make_env(envd):
-    e = dict(envd)
-    e["o"] = Obj(e.pop("oa"), e.pop("ob"))
-    return e
+class WeirdBool:
+    """An object without a truth value (like a numpy array)."""
+
+    def __bool__(self):
+        raise ValueError("The truth value is ambiguous")
+
+    def __repr__(self):
+        return "WeirdBool()"
 
 
 # --------------------------------------------------------------------------
@@ -58,12 +63,21 @@ class _Instrument(ast.NodeTransformer):
     def __init__(self):
         self.nodes = []      # k -> original node
         self.depth = 0       # comprehension nesting
+        self.in_comp = set() # ks of nodes inside a comprehension scope
+        self.fdepth = 0      # nesting inside f-strings
+        self.idepth = 0      # nesting inside the first iterable of a comprehension
+        self.in_fstring = set()
+        self.in_first_iter = set()
 
     def _wrap(self, orig, new):
-        if self.depth > 0:
-            return new
         k = len(self.nodes)
         self.nodes.append(orig)
+        if self.depth > 0:
+            self.in_comp.add(k)
+        if self.fdepth > 0:
+            self.in_fstring.add(k)
+        if self.idepth > 0:
+            self.in_first_iter.add(k)
         return ast.copy_location(ast.Call(func=ast.Name(id="H_rec", ctx=ast.Load()), args=[ast.Constant(k), new], keywords=[]), orig)
 
     def visit(self, node):
@@ -74,11 +88,14 @@ class _Instrument(ast.NodeTransformer):
             return node
         if isinstance(getattr(node, "ctx", None), (ast.Store, ast.Del)):
             return node
+        import copy as _copy
         if isinstance(node, (ast.ListComp, ast.SetComp, ast.DictComp, ast.GeneratorExp)):
-            orig = node
+            orig = _copy.deepcopy(node)
             # the first iterable is evaluated in the enclosing scope
             first = node.generators[0].iter
+            self.idepth += 1
             node.generators[0].iter = self.visit(first)
+            self.idepth -= 1
             self.depth += 1
             if isinstance(node, ast.DictComp):
                 node.key = self.visit(node.key)
@@ -92,32 +109,39 @@ class _Instrument(ast.NodeTransformer):
             self.depth -= 1
             return self._wrap(orig, node)
         if isinstance(node, ast.NamedExpr):
-            orig = node
+            orig = _copy.deepcopy(node)
             node.value = self.visit(node.value)
             return self._wrap(orig, node)
         if isinstance(node, ast.FormattedValue):
             node.value = self.visit(node.value)
             if node.format_spec is not None:
-                node.format_spec = self.visit(node.format_spec)
+                node.format_spec.values = [self.visit(v) if isinstance(v, ast.FormattedValue) else v
+                                           for v in node.format_spec.values]
             return node
         if isinstance(node, ast.JoinedStr):
-            orig = node
+            orig = _copy.deepcopy(node)
+            self.fdepth += 1
             node.values = [self.visit(v) if isinstance(v, ast.FormattedValue) else v for v in node.values]
+            self.fdepth -= 1
             return self._wrap(orig, node)
         if isinstance(node, ast.Slice):
             for f in ("lower", "upper", "step"):
                 if getattr(node, f) is not None:
                     setattr(node, f, self.visit(getattr(node, f)))
             return node
-        import copy as _copy
         orig = _copy.deepcopy(node)
         new = self.generic_visit(node)
         return self._wrap(orig, new)
 
 
+def parse_expr(src):
+    """the condition body as an expression (a multi-line body is only valid inside the call's parentheses)"""
+    return ast.parse("(" + src + ")" if "\n" in src else src, mode="eval")
+
+
 def oracle(expr_src, env, closure, glob):
     """Returns dict(value=..., exc=..., evaluated=[(k, node, value)]) of CPython's own evaluation."""
-    tree = ast.parse(expr_src, mode="eval")
+    tree = parse_expr(expr_src)
     ins = _Instrument()
     new = ins.visit(tree.body)
     ast.fix_missing_locations(new)
@@ -130,10 +154,11 @@ def oracle(expr_src, env, closure, glob):
 
     g = dict(glob)
     g.update(closure)
+    g.update(env)            # comprehension scopes only see globals of an `eval`
     g["H_rec"] = H_rec
-    out = {"nodes": ins.nodes}
+    out = {"nodes": ins.nodes, "in_comp": ins.in_comp, "in_fstring": ins.in_fstring, "in_first_iter": ins.in_first_iter}
     try:
-        out["value"] = eval(code, g, dict(env))
+        out["value"] = eval(code, g)
         out["exc"] = None
     except BaseException as e:  # noqa: B902
         out["value"] = None
@@ -174,89 +199,147 @@ class Scratch:
 LAYOUTS = ["oneline", "multiline", "keyword", "comments", "neighbours", "nested", "description"]
 
 
+def self_expr(expr_src, fields):
+    """the expression with every argument name `x` replaced by `self.x` (for class invariants)"""
+    tree = parse_expr(expr_src)
+    bound = set()
+    for n in ast.walk(tree):
+        if isinstance(n, ast.Name) and isinstance(n.ctx, ast.Store):
+            bound.add(n.id)
+
+    class T(ast.NodeTransformer):
+        def visit_Name(self, n):
+            if isinstance(n.ctx, ast.Load) and n.id in fields and n.id not in bound:
+                return ast.Attribute(value=ast.Name(id="self", ctx=ast.Load()), attr=n.id, ctx=ast.Load())
+            return n
+
+    return ast.unparse(T().visit(tree))
+
+
 def module_source(cases, glob_src):
-    """One module with one decorated function per case (layout variants of the decorator)."""
+    """One module with one decorated function (or class) per case (layout variants of the decorator)."""
     lines = ["import icontract", "import functools", glob_src, ""]
     lines.append("def make_all(cl, A_REPRS):")
     lines.append("    fs = {}")
+    lines.append("    plain = {}")
     for i, c in enumerate(cases):
         layout = c.get("layout", "oneline")
-        lam = "lambda %s: %s" % (", ".join(c.get("params", ARGS)), c["expr"])
+        kind = c.get("kind", "require")
+        deco = "icontract." + kind
+        params = c.get("params", ARGS)
+        if kind == "invariant":
+            lam = "lambda self: %s" % c["expr"]
+            if layout in ("neighbours", "nested"):
+                layout = "oneline"
+        else:
+            lam = "lambda %s: %s" % (", ".join(params), c["expr"])
         extra = ", a_repr=A_REPRS[%d]" % i if c.get("a_repr") else ""
+        if c.get("error"):
+            extra += ", error=%s" % c["error"]
         ind = "    "
         if layout == "oneline":
-            lines.append(ind + "@icontract.require(%s%s)" % (lam, extra))
+            lines.append(ind + "@%s(%s%s)" % (deco, lam, extra))
         elif layout == "description":
-            lines.append(ind + "@icontract.require(%s, 'descr %d'%s)" % (lam, i, extra))
+            lines.append(ind + "@%s(%s, 'descr %d'%s)" % (deco, lam, i, extra))
         elif layout == "multiline":
-            lines.append(ind + "@icontract.require(")
-            lines.append(ind + "    %s%s," % (lam.replace(" and ", "\n" + ind + "        and ").replace(" or ", "\n" + ind + "        or ") if c.get("splittable") else lam, ""))
+            lines.append(ind + "@%s(" % deco)
+            lines.append(ind + "    %s," % lam)
             lines.append(ind + "    description='descr %d'%s," % (i, extra))
             lines.append(ind + ")")
         elif layout == "keyword":
-            lines.append(ind + "@icontract.require(description='descr %d', condition=%s%s)" % (i, lam, extra))
+            lines.append(ind + "@%s(description='descr %d', condition=%s%s)" % (deco, i, lam, extra))
         elif layout == "comments":
             lines.append(ind + "# a comment before the decorator mentioning def and class")
-            lines.append(ind + "@icontract.require(  # trailing comment")
+            lines.append(ind + "@%s(  # trailing comment" % deco)
             lines.append(ind + "    # a comment inside the call: @not_a_decorator def nope")
             lines.append(ind + "    %s,  # the condition" % lam)
             lines.append(ind + "    'descr %d'%s)" % (i, extra))
         elif layout == "neighbours":
             lines.append(ind + "@functools.lru_cache(maxsize=None) if False else (lambda f: f)")
-            lines.append(ind + "@icontract.require(%s%s)" % (lam, extra))
+            lines.append(ind + "@%s(%s%s)" % (deco, lam, extra))
             lines.append(ind + "@icontract.ensure(lambda result: True)")
         elif layout == "nested":
             lines.append(ind + "class Holder_%d:" % i)
             lines.append(ind + "    @staticmethod")
-            lines.append(ind + "    @icontract.require(%s%s)" % (lam, extra))
-            lines.append(ind + "    def f_%d(%s):" % (i, ", ".join(ARGS)))
+            lines.append(ind + "    @%s(%s%s)" % (deco, lam, extra))
+            lines.append(ind + "    def f_%d(%s):" % (i, ", ".join(params)))
             lines.append(ind + "        return 1")
             lines.append(ind + "fs[%d] = Holder_%d.f_%d" % (i, i, i))
             continue
-        lines.append(ind + "def f_%d(%s):" % (i, ", ".join(ARGS)))
+        if kind == "invariant":
+            fields = c["fields"]
+            for cname, reg in (("K_%d" % i, "fs"), ("P_%d" % i, "plain")):
+                lines.append(ind + "class %s:" % cname)
+                lines.append(ind + "    def __init__(self, %s):" % ", ".join(fields))
+                for f in fields:
+                    lines.append(ind + "        self.%s = %s" % (f, f))
+                lines.append(ind + "    def __repr__(self):")
+                lines.append(ind + "        return 'K(' + ', '.join('%s=%r' % (f, getattr(self, f)) for f in " + repr(list(fields)) + ") + ')'")
+                lines.append(ind + "%s[%d] = %s" % (reg, i, cname))
+            continue
+        lines.append(ind + "def f_%d(%s):" % (i, ", ".join(c.get("fparams", params))))
         lines.append(ind + "    return 1")
         lines.append(ind + "fs[%d] = f_%d" % (i, i))
-    lines.append("    return fs")
+    lines.append("    return fs, plain")
     return "\n".join(lines) + "\n"
 
 
 _WAS = re.compile(r"^(.*?) was (.*)$", re.S)
 
 
-def parse_message(msg, expr_text_hint=None):
-    """Split a generated message into (location, header, [(key, rendered)], raw).  Value blocks may span lines
-    (`all(...)` examples); a new entry starts at a line containing ' was '."""
+def _norm(text):
+    for t in (text.strip(), "(" + text + ")"):
+        try:
+            return ast.dump(ast.parse(t, mode="eval").body)
+        except (SyntaxError, ValueError):
+            continue
+    return None
+
+
+def parse_message(msg, expr_src):
+    """Split a generated message into (location, header, [(key, rendered)], raw).  The condition text is the
+    shortest prefix (after location and description) ending at a ':' that parses to the evaluated expression;
+    value blocks may span lines (`all(...)` examples); a new entry starts at an unindented line containing ' was '."""
     lines = msg.split("\n")
     location = None
     if lines and lines[0].startswith("File ") and lines[0].endswith(":"):
         location = lines[0]
         lines = lines[1:]
     text = "\n".join(lines)
-    # header: "<description>: <condition text>[:][ first value]" - values start after the condition text
-    entries = []
-    header = text
-    if expr_text_hint is not None and expr_text_hint in text:
-        idx = text.index(expr_text_hint) + len(expr_text_hint)
-        header = text[:idx]
-        rest = text[idx:]
-        if rest.startswith(":\n"):
-            rest = rest[2:]
-        elif rest.startswith(": "):
-            rest = rest[2:]
+    descr = None
+    m = re.match(r"^(descr \d+): ", text)
+    if m:
+        descr = m.group(1)
+        text = text[m.end():]
+    want = _norm(expr_src)
+    header, rest = None, None
+    pos = -1
+    while True:
+        pos = text.find(":", pos + 1)
+        if pos < 0:
+            break
+        if _norm(text[:pos]) == want:
+            header, rest = text[:pos], text[pos + 1:]
+            break
+    if header is None:
+        if _norm(text) == want:
+            header, rest = text, ""
         else:
-            rest = rest.lstrip(":")
-        cur = None
-        for ln in rest.split("\n"):
-            m = _WAS.match(ln)
-            if m and not ln.startswith("  "):
-                if cur:
-                    entries.append(cur)
-                cur = [m.group(1), m.group(2)]
-            elif cur is not None:
-                cur[1] += "\n" + ln
-        if cur:
-            entries.append(cur)
-    return location, header, entries, msg
+            return location, None, [], msg
+    rest = rest[1:] if rest[:1] in ("\n", " ") else rest
+    entries = []
+    cur = None
+    for ln in rest.split("\n"):
+        m = _WAS.match(ln)
+        if m and not ln.startswith("  "):
+            if cur:
+                entries.append(cur)
+            cur = [m.group(1), m.group(2)]
+        elif cur is not None:
+            cur[1] += "\n" + ln
+    if cur:
+        entries.append(cur)
+    return location, (descr, header), entries, msg
 
 
 class RecordingVisitor(_rc.Visitor):
@@ -265,10 +348,140 @@ class RecordingVisitor(_rc.Visitor):
 
     def __init__(self, *a, **k):
         super().__init__(*a, **k)
+        self.root = None
         RecordingVisitor.last = self
 
+    def visit(self, node):
+        if self.root is None:
+            self.root = node
+        return super().visit(node)
 
-def run_batch(cases, glob_src="GL = 7", closure_value=5):
+
+TICKS = []
+
+
+def tick(v):
+    """A side-effect probe: conditions may wrap sub-expressions in `tick(...)`; every evaluation is logged."""
+    TICKS.append(v if isinstance(v, (int, bool, str, type(None))) else type(v).__name__)
+    return v
+
+
+def special_value(v):
+    if not isinstance(v, str):
+        return v
+    if v == "WEIRDBOOL":
+        return WeirdBool()
+    if v == "FUNC":
+        return make_env
+    if v == "LAMBDA":
+        return _A_LAMBDA
+    if v == "CLASS":
+        return Obj
+    if v == "BUILTIN":
+        return len
+    if v == "MODULE":
+        return os
+    if v == "METHOD":
+        return _AN_OBJ.m
+    if v.startswith("BIGLIST:"):
+        return list(range(int(v.split(":")[1])))
+    if v.startswith("BIGSTR:"):
+        return "abcdefghij" * int(v.split(":")[1])
+    if v.startswith("BIGDICT:"):
+        return dict(("k%03d" % i, i) for i in range(int(v.split(":")[1])))
+    if v.startswith("STRSET:"):
+        return set("s%d" % i for i in range(int(v.split(":")[1])))
+    if v == "BIGNEST":
+        return [list(range(100)), "x" * 300, set("s%d" % i for i in range(30))]
+    if v.startswith("NESTED:"):
+        r = []
+        for _ in range(int(v.split(":")[1])):
+            r = [r, 1]
+        return r
+    return v
+
+
+_A_LAMBDA = lambda q: q  # noqa: E731
+_AN_OBJ = Obj(1, [])
+
+
+def make_env(envd):  # noqa: F811
+    e = dict((k, special_value(v)) for k, v in envd.items())
+    if "oa" in e or "ob" in e:
+        e["o"] = Obj(e.pop("oa", 0), e.pop("ob", []))
+    return e
+
+
+def to_val(v, objs):
+    """Python value -> model `Val` JSON (None if outside the modelled fragment); opaque objects get ids."""
+    if v is None:
+        return "none"
+    if isinstance(v, bool):
+        return {"bool": {"b": v}}
+    if isinstance(v, int):
+        return {"int": {"i": v}}
+    if isinstance(v, str):
+        return {"str": {"s": v}}
+    if isinstance(v, list):
+        xs = [to_val(x, objs) for x in v]
+        if any(x is None for x in xs):
+            return None
+        return {"list": {"xs": xs}}
+    if not _representable_value(v):
+        return {"fn": {"name": getattr(v, "__name__", "fn")}}
+    for i, o in enumerate(objs):
+        if o is v:
+            return {"obj": {"id": i}}
+    objs.append(v)
+    return {"obj": {"id": len(objs) - 1}}
+
+
+def _representable_value(v):
+    import icontract._represent as _rp
+    return bool(_rp._representable(v))
+
+
+def from_val(j, objs):
+    if j == "none":
+        return None
+    if "bool" in j:
+        return j["bool"]["b"]
+    if "int" in j:
+        return j["int"]["i"]
+    if "str" in j:
+        return j["str"]["s"]
+    if "list" in j:
+        return [from_val(x, objs) for x in j["list"]["xs"]]
+    if "obj" in j:
+        return objs[j["obj"]["id"]]
+    return len
+
+
+def position_keys(expr_src):
+    """(kind, col, end_col) -> preorder index of the node in the expression (one-line expressions)."""
+    tree = ast.parse(expr_src, mode="eval").body
+    keys = {}
+    order = []
+
+    def walk(n):
+        if isinstance(n, ast.expr) and not isinstance(getattr(n, "ctx", None), (ast.Store, ast.Del)):
+            keys[(type(n).__name__, n.col_offset - tree.col_offset, n.end_col_offset - tree.col_offset)] = len(order)
+            order.append(n)
+        for ch in ast.iter_child_nodes(n):
+            walk(ch)
+
+    walk(tree)
+    return tree, keys, order
+
+
+def _call(f, env, variant, params):
+    if variant.get("positional"):
+        return f(*[env[p] for p in params])
+    order = variant.get("order") or list(env.keys())
+    return f(**dict((k, env[k]) for k in order if k in env))
+
+
+def run_batch(cases, glob_src="GL = 7\ny = 1000\ncl = 77", closure_value=5, normalise_location=False):
     """cases: [{"expr": str, "env": {...}, "layout": str, ...}] -> list of observations."""
     sc = Scratch()
     outs = []
@@ -280,22 +493,43 @@ def run_batch(cases, glob_src="GL = 7", closure_value=5):
                 for k, v in c["a_repr"].items():
                     setattr(r, k, v)
                 reprs[i] = r
-        src = module_source(cases, glob_src)
+        src = module_source(cases, "from implexpr import tick\n" + glob_src)
         try:
-            mod, _name = sc.module(src)
-            fs = mod.make_all(closure_value, reprs)
+            mod, mod_name = sc.module(src)
+            fs, plain = mod.make_all(closure_value, reprs)
         except BaseException as e:  # noqa: B902
             return [{"define": ["raise", type(e).__name__, str(e)[:200]], "src": src} for _ in cases]
         glob = dict(vars(mod))
+        src_lines = src.split("\n")
         orig_visitor = _rc.Visitor
         for i, c in enumerate(cases):
+            params = c.get("params", ARGS)
+            kind = c.get("kind", "require")
             env = make_env(c["env"])
+            if kind == "invariant":
+                call_env = dict((k, v) for k, v in env.items() if k in c["fields"])
+                env = {"self": plain[i](**call_env)}
+            else:
+                fparams = c.get("fparams", params)
+                call_env = dict((k, v) for k, v in env.items() if k in fparams)
+                env = dict(call_env)
+                v0 = (c.get("variants") or [{}])[0]
+                if "_ARGS" in params:
+                    env["_ARGS"] = tuple(call_env[p] for p in fparams) if v0.get("positional") else ()
+                if "_KWARGS" in params:
+                    env["_KWARGS"] = {} if v0.get("positional") else dict(call_env)
             ob = {"define": ["ok"]}
+            del TICKS[:]
             orc = oracle(c["expr"], env, {"cl": closure_value}, glob)
+            ob["oracle_ticks"] = list(TICKS)
             ob["oracle_value_falsy"] = (orc["exc"] is None and not orc["value"])
             ob["oracle_exc"] = orc["exc"]
             a_repr = reprs.get(i, icontract.aRepr)
+            objs = []
             ev = []
+            one_line = "\n" not in c["expr"]
+            _tree, poskeys, _order = position_keys(c["expr"]) if one_line else (None, {}, [])
+            root_col = _tree.col_offset if _tree is not None else 0
             for k, v in orc["evaluated"]:
                 node = orc["nodes"][k]
                 try:
@@ -303,34 +537,69 @@ def run_batch(cases, glob_src="GL = 7", closure_value=5):
                 except BaseException:  # noqa: B902
                     rendered = None
                 ev.append({"k": k, "kind": type(node).__name__, "dump": ast.dump(node), "text": ast.unparse(node),
-                           "rendered": rendered, "representable": bool(__import__("icontract._represent", fromlist=["x"])._representable(v)),
-                           "is_none": v is None, "type": type(v).__name__})
+                           "rendered": rendered, "representable": _representable_value(v),
+                           "is_none": v is None, "type": type(v).__name__, "in_comp": k in orc["in_comp"],
+                           "in_fstring": k in orc["in_fstring"], "in_first_iter": k in orc["in_first_iter"],
+                           "pos": poskeys.get((type(node).__name__, getattr(node, "col_offset", -1) - root_col, getattr(node, "end_col_offset", -1) - root_col))})
             ob["evaluated"] = ev
+            ob["nodes"] = [{"k": k, "dump": ast.dump(nd), "kind": type(nd).__name__, "in_comp": k in orc["in_comp"],
+                            "text": ast.unparse(nd)} for k, nd in enumerate(orc["nodes"])]
+            ob["args_rendered"] = dict((k, (a_repr.repr(v) if _representable_value(v) else None)) for k, v in env.items())
+            # expected location of the decorator in the generated file
+            if kind == "ensure":
+                ob["args_rendered"]["result"] = a_repr.repr(1)
+            decl = [ln for ln, t in enumerate(src_lines) if ("@icontract.%s(" % kind) in t]
+            ob["decl_line"] = decl[i] + 1 if i < len(decl) else None
+            ob["file"] = mod.__file__
+            variants = c.get("variants") or [{}]
+            msgs = []
             _rc.Visitor = RecordingVisitor
             RecordingVisitor.last = None
             try:
-                try:
-                    fs[i](**env)
-                    ob["out"] = ["ret"]
-                except icontract.ViolationError as e:
-                    ob["out"] = ["ViolationError"]
-                    loc, header, entries, raw = parse_message(str(e), c["expr"] if c.get("layout", "oneline") != "multiline" else None)
-                    ob["location"] = loc
-                    ob["header"] = header
-                    ob["entries"] = entries
-                    ob["message"] = raw
-                except BaseException as e:  # noqa: B902
-                    ob["out"] = [type(e).__name__, str(e)[:300], type(e.__cause__).__name__ if e.__cause__ is not None else None]
+                for vi, variant in enumerate(variants):
+                    del TICKS[:]
+                    try:
+                        _call(fs[i], call_env, variant, c["fields"] if kind == "invariant" else c.get("fparams", params))
+                        res = ["ret"]
+                    except (icontract.ViolationError, ValueError) as e:
+                        want = ValueError if c.get("error") == "ValueError" else icontract.ViolationError
+                        if type(e) is want:
+                            res = ["ViolationError", str(e)]
+                        else:
+                            res = [type(e).__name__, str(e)[:300], type(e.__cause__).__name__ if e.__cause__ is not None else None]
+                    except BaseException as e:  # noqa: B902
+                        res = [type(e).__name__, str(e)[:300], type(e.__cause__).__name__ if e.__cause__ is not None else None]
+                    msgs.append(res)
+                    if vi == 0:
+                        ob["ticks"] = list(TICKS)
             finally:
                 _rc.Visitor = orig_visitor
+            first = msgs[0]
+            if first[0] == "ViolationError":
+                ob["out"] = ["ViolationError"]
+                loc, header, entries, raw = parse_message(first[1], c["expr"])
+                ob["location"] = loc
+                ob["header"] = header
+                ob["entries"] = entries
+                ob["message"] = raw
+            else:
+                ob["out"] = first
+            norm = (lambda m: m.replace(sc.dir, "<DIR>").replace(mod_name, "<MOD>")) if normalise_location else (lambda m: m)
+            ob["variant_msgs"] = [[m[0]] + [norm(x) if isinstance(x, str) else x for x in m[1:]] for m in msgs]
             rv = RecordingVisitor.last
             if rv is not None:
                 rec = []
+                root = rv.root
                 for node, v in rv.recomputed_values.items():
+                    pos = None
+                    if one_line and root is not None and getattr(node, "lineno", None) == getattr(root, "lineno", None) and hasattr(node, "col_offset"):
+                        pos = poskeys.get((type(node).__name__, node.col_offset - root.col_offset, node.end_col_offset - root.col_offset))
                     try:
-                        rec.append([ast.dump(node), a_repr.repr(v), type(v).__name__])
+                        rr = a_repr.repr(v)
                     except BaseException:  # noqa: B902
-                        rec.append([ast.dump(node), None, type(v).__name__])
+                        rr = None
+                    rec.append({"dump": ast.dump(node), "rendered": rr, "type": type(v).__name__, "pos": pos,
+                                "representable": _representable_value(v)})
                 ob["recomputed"] = rec
             outs.append(ob)
         return outs
